@@ -665,6 +665,93 @@ func runC08(c *Ctx) error {
 			}
 		}
 	}
+	return c08DeepChains(c)
+}
+
+// c08DeepChains: chains of 97..101 hop records (the receive path has no size limit below the largest
+// buffer; an attacker mints the identities himself).  Whatever the depth: if any record is forged
+// the announcement changes nothing and nothing is forwarded; if it is accepted, the route lists
+// exactly the signers of the attached records.
+func c08DeepChains(c *Ctx) error {
+	var deep []*m.Address
+	for i := 0; i < 102; i++ {
+		a, err := newIdentity()
+		if err != nil {
+			return err
+		}
+		deep = append(deep, a)
+	}
+	depths := []int{99, 100}
+	if c.Thorough() {
+		depths = []int{97, 98, 99, 100, 101}
+	}
+	for _, depth := range depths {
+		for _, forgeAt := range []int{-1, depth - 1, depth / 2, 98, 99} {
+			if forgeAt >= depth {
+				continue
+			}
+			e, err := newCtlEnv(c, false)
+			if err != nil {
+				return err
+			}
+			R := e.R
+			origin := deep[101]
+			a, err := c08NewAnn(origin, false, 7, time.Now().Add(time.Hour))
+			if err != nil {
+				return err
+			}
+			var chain []c08Rec
+			var signers []netip.Addr
+			for k := 0; k < depth; k++ {
+				id := deep[k]
+				if k == 0 {
+					id = e.P1.id // the delivering peer is the outermost signer
+				}
+				r := c08Rec{pub: id.PublicAddress, delay: uint16(1 + c.Rng.IntN(40)), fl: m.SwitchLabel(2 + c.Rng.IntN(100)), rl: m.SwitchLabel(2 + c.Rng.IntN(100)), signKey: id.PrivateKey, ctx: a.ctx, flipAt: -1}
+				if k == forgeAt {
+					r.flipAt, r.flipSig = c.Rng.IntN(4096), true
+				}
+				chain = append(chain, r)
+				signers = append(signers, id.IP)
+			}
+			data := append(append([]byte(nil), a.base...), c08Encode(chain)...)
+			before := coqEntries(R.ro.Table().VerifEntries())
+			e.w.queue = nil
+			res := R.inject(data, R.links[e.P1.id.IP])
+			c.Eval()
+			after := R.ro.Table().VerifEntries()
+			forwarded := len(e.w.queue)
+			e.w.queue = nil
+			rep := map[string]any{"records": depth, "forged_record": forgeAt + 1, "appendix_bytes": len(data) - len(a.base), "forwarded": forwarded}
+			c.Count(fmt.Sprintf("deep-chain:%d/forged=%v", depth, forgeAt >= 0))
+			if res.panicked() {
+				c.Violate(fmt.Sprintf("an announcement with %d hop records crashed a router worker", depth), "deep-panic", rep)
+				continue
+			}
+			var got *m.RoutingTableEntry
+			for i := range after {
+				if after[i].DstIP == origin.IP {
+					got = &after[i]
+				}
+			}
+			c.NonTrivial(fmt.Sprintf("deep/%d/forged-at=%d/accepted=%v", depth, forgeAt+1, got != nil))
+			if forgeAt >= 0 {
+				if coqEntries(after) != before || forwarded > 0 {
+					c.Violate(fmt.Sprintf("an announcement with %d hop records whose record %d (counted from the outermost) carries a modified signature changed the routing table or was forwarded", depth, forgeAt+1), "deep-forged-accepted", rep)
+				}
+				continue
+			}
+			if got != nil {
+				ok := got.NextHop == e.P1.id.IP && len(got.Path.Hops) == depth+2
+				for j := 0; ok && j < depth; j++ {
+					ok = got.Path.Hops[j+1].Router == signers[j]
+				}
+				if !ok {
+					c.Violate(fmt.Sprintf("an accepted announcement with %d genuine hop records installed a route with %d hops that does not list exactly the signers", depth, len(got.Path.Hops)), "deep-route-shape", rep)
+				}
+			}
+		}
+	}
 	return nil
 }
 
